@@ -13,6 +13,7 @@ import (
 	"math/rand"
 	"os"
 	"runtime"
+	"strings"
 	"syscall"
 	"time"
 
@@ -360,6 +361,13 @@ func c06Main(args map[string]string) {
 			c.out.Begin(idx-1, map[string]interface{}{"kind": "json-p", "seed": seed, "i": i, "k": k})
 			c.run(rc)
 		}
+		// nesting along the DECLARED fields of self-recursive types (the converters keep a frame per level of a known field;
+		// unknown members are skipped without one): depths around every plausible stack size
+		if i == 0 {
+			c.typedDeep()
+			c.penv = pf.env
+			c.jt = fxRoot(fx)
+		}
 		// nesting beyond any depth limit
 		for _, depth := range []int{100, 1000, 70000} {
 			deep := bytes.Repeat([]byte("["), depth)
@@ -374,6 +382,61 @@ func c06Main(args map[string]string) {
 		}
 	}
 	fmt.Printf("c06 cases=%d events=%d\n", c.cases, out.n)
+}
+
+// typedDeep: documents nested through declared recursive fields - a singular child, a repeated one, a string-keyed map
+func (c *c06) typedDeep() {
+	svc, err := thrift.NewDescritorFromContent(context.Background(), "deep.thrift",
+		"struct R {\n  1: optional R child\n  2: optional list<R> kids\n  3: optional map<string,R> m\n  4: optional i32 v\n}\nservice S { R M(1: R r) }\n", nil, false)
+	if err != nil {
+		die("deep idl: %v", err)
+	}
+	fn, _ := svc.LookupFunctionByMethod("M")
+	tdesc := fn.Request().Struct().FieldById(1).Type()
+	penv, err := newPbEnv(PSchema{Root: "Root", Msgs: map[string][]PField{"Root": {
+		{Num: 1, Name: "child", JSON: "child", Kind: "message", Msg: "Root", Card: "one", JB: B("child"), NB: B("child")},
+		{Num: 2, Name: "kids", JSON: "kids", Kind: "message", Msg: "Root", Card: "rep", JB: B("kids"), NB: B("kids")},
+		{Num: 3, Name: "m", JSON: "m", Kind: "message", Msg: "Root", Card: "map", KKind: "string", JB: B("m"), NB: B("m")},
+		{Num: 4, Name: "v", JSON: "v", Kind: "int32", Card: "one", JB: B("v"), NB: B("v")}}}})
+	if err != nil {
+		die("deep proto schema: %v", err)
+	}
+	for _, depth := range []int{30, 60, 63, 64, 65, 85, 120, 127, 128, 129, 200, 254, 255, 256, 257, 300, 1000, 4000} {
+		for _, shape := range []string{"child", "kids", "m"} {
+			open, close := `{"child":`, `}`
+			switch shape {
+			case "kids":
+				open, close = `{"kids":[`, `]}`
+			case "m":
+				open, close = `{"m":{"k":`, `}}`
+			}
+			doc := strings.Repeat(open, depth) + `{"v":1}` + strings.Repeat(close, depth)
+			for _, cut := range []bool{false, true} {
+				b := []byte(doc)
+				if cut {
+					b = b[:len(strings.Repeat(open, depth))+3] // the closing half is missing
+				}
+				c.jt, c.penv = tdesc, penv
+				c.run(RobCase{Kind: "json-t", B: B(b), MK: "deep-typed"})
+				c.run(RobCase{Kind: "json-p", B: B(b), MK: "deep-typed"})
+			}
+		}
+		// Protobuf binary: field 1 (child) nested depth times, lengths correct
+		body := []byte{0x20, 0x01}
+		for k := 0; k < depth && len(body) < 1<<20; k++ {
+			body = append(protowireAppendLen([]byte{0x0a}, len(body)), body...)
+		}
+		c.penv = penv
+		c.run(RobCase{Kind: "proto", B: B(body), MK: "deep-typed"})
+	}
+}
+
+func protowireAppendLen(b []byte, n int) []byte {
+	for n >= 0x80 {
+		b = append(b, byte(n)|0x80)
+		n >>= 7
+	}
+	return append(b, byte(n))
 }
 
 // idlofMain prints the IDL the harness infers for a well-formed Thrift value (used by tools/mkrepro06.py)
